@@ -70,10 +70,10 @@ CLASSIFIED = [
 ]
 
 # ---- the token table of the printer (spec/tmplsem/TmplText.tla), regenerated at every run from the sources
-ENV_NAMES = ["n", "m", "s", "t", "b", "c", "l", "q", "i", "v", "w", "u", "p", "k", "y", "f", "M", "P", "K", "N", "O", "Q", "itea", "zz", "yy", "ZZ",
-             "Main", "V", "Body", "Side", "R"]
+ENV_NAMES = ["n", "m", "s", "t", "b", "c", "l", "q", "i", "v", "w", "u", "p", "k", "y", "f", "M", "P", "K", "W", "xs", "N", "O", "Q", "itea", "zz", "yy", "ZZ",
+             "Main", "V", "Body", "Side", "R", "Top"]
 OTHER_TOKENS = ["_", "gs", "gn", "gu", "+", "-", "*", "/", "%", "==", "!=", "<", "<=", ">", ">=", "=", "+=", "-=", "++", "--",
-                "int", "string", "bool", "html", "txt", "if", "for", "switch", "select", "raw", "macro", "using", "break", "continue", "index", "f", "l", "p", "q"]
+                "int", "string", "bool", "...int", "...", "a", "html", "txt", "if", "for", "switch", "select", "raw", "macro", "using", "break", "continue", "index", "f", "l", "p", "q"]
 
 
 def text_module(srcs):
